@@ -121,3 +121,6 @@ Fixpoint prop_from (cfg : list Z) (st : ospec) (ops : list zop) (obs : list (lis
 
 Definition prop_ok (c : case) : bool :=
   prop_from (c_cfg c) (repeat ([], 0%N) 8) (c_ops c) (c_obs c).
+
+(* oracles by number (tools/families/countmin.py: ORACLES) *)
+Definition oracles : list (Z * (case -> bool)) := [(0, prop_ok)].
